@@ -305,8 +305,12 @@ theorem nextTypeOffset_toNat (cursor : UInt32) (n : Nat) (h : cursor.toNat + n <
 
 theorem typeEntryAt_enc (pre buf post : Bytes) (e : TypeEntry) (base : Nat) (prev : Option UInt32)
     (he : decTypeEntry buf = .ok (e, [])) (hbase : base ≤ pre.length)
-    (hprev : ∀ p, prev = some p → p.toNat ≤ pre.length) :
+    (hprev : ∀ p, prev = some p → p.toNat ≤ pre.length)
+    (hfirst : prev = none → pre.length = base) :
     typeEntryAt (pre ++ (buf ++ post)) base prev pre.length (pre.length + buf.length) = .ok e := by
+  have hfirst' : ¬ (prev.isNone ∧ pre.length ≠ base) := by
+    intro ⟨h1, h2⟩
+    exact h2 (hfirst (by simpa using h1))
   have hprev' : unsortedAfter prev pre.length = false := by
     cases prev with
     | none => rfl
@@ -318,20 +322,20 @@ theorem typeEntryAt_enc (pre buf post : Bytes) (e : TypeEntry) (base : Nat) (pre
   have hslice : List.take (pre.length + buf.length - pre.length)
       (List.drop pre.length (pre ++ (buf ++ post))) = buf := by simp
   unfold typeEntryAt
-  rw [if_neg hc1, hprev', hslice, he]
+  rw [if_neg hc1, if_neg hfirst', hprev', hslice, he]
   simp
 
 theorem decTypeEntriesAt_enc (es : List TypeEntry) (hwf : ∀ e ∈ es, e.wf = true) :
     ∀ (pre : Bytes) (base : Nat) (prev : Option UInt32) (cursor : UInt32),
     cursor.toNat = pre.length → base ≤ pre.length →
-    (∀ p, prev = some p → p.toNat ≤ cursor.toNat) →
+    (∀ p, prev = some p → p.toNat ≤ cursor.toNat) → (prev = none → pre.length = base) →
     pre.length + ((es.map encTypeEntry).flatMap id).length < 4294967296 →
     decTypeEntriesAt (pre ++ (es.map encTypeEntry).flatMap id) base prev
       (computeTypeOffsetsFrom cursor (es.map encTypeEntry)) = .ok es := by
   induction es with
   | nil => intros; simp [computeTypeOffsetsFrom, decTypeEntriesAt]
   | cons e rest ih =>
-    intro pre base prev cursor hcur hbase hprev hlen
+    intro pre base prev cursor hcur hbase hprev hfirst hlen
     have he := decTypeEntry_enc e (hwf e (by simp)) []
     have hrest : ∀ x ∈ rest, x.wf = true := fun x hx => hwf x (by simp [hx])
     have hsplit : ((e :: rest).map encTypeEntry).flatMap id
@@ -345,7 +349,7 @@ theorem decTypeEntriesAt_enc (es : List TypeEntry) (hwf : ∀ e ∈ es, e.wf = t
     generalize hnc : nextTypeOffset cursor buf.length = nextc at *
     have hih := ih hrest (pre ++ buf) base (some cursor) nextc
       (by rw [hnext]; simp; omega) (by simp; omega)
-      (by intro p hp; cases hp; omega)
+      (by intro p hp; cases hp; omega) (by intro hn; cases hn)
       (by simp only [List.length_append]; omega)
     have hno : nextOffset (pre ++ (buf ++ restBytes)) (computeTypeOffsetsFrom nextc (rest.map encTypeEntry))
         = pre.length + buf.length := by
@@ -353,7 +357,7 @@ theorem decTypeEntriesAt_enc (es : List TypeEntry) (hwf : ∀ e ∈ es, e.wf = t
       | nil => simp at hrb; subst hrb; simp [computeTypeOffsetsFrom, nextOffset]
       | cons e2 rest2 => simp [computeTypeOffsetsFrom, nextOffset]; omega
     have hte := typeEntryAt_enc pre buf restBytes e base prev he hbase
-      (by intro p hp; have := hprev p hp; omega)
+      (by intro p hp; have := hprev p hp; omega) hfirst
     simp only [List.map_cons, hbuf, computeTypeOffsetsFrom, hnc, decTypeEntriesAt, hno, hcur, hte]
     rw [← List.append_assoc, hih]
 
@@ -403,7 +407,7 @@ theorem decTypeTable_enc (minor : UInt16) (t : TypeTable) (h : t.wf minor = true
         (encU32 (UInt32.ofNat entries.length) ++ (computeTypeOffsets bufs).flatMap encU32)
         (4 + 4 * entries.length) none (4 + UInt32.ofNat bufs.length * 4)
         (by rw [hcur, hpre]) (by rw [hpre]; exact Nat.le_refl _) (by intro p hp; cases hp)
-        (by rw [hpre, hbufs]; omega)
+        (fun _ => hpre) (by rw [hpre, hbufs]; omega)
       rw [hbufs] at this
       exact this
     have hbase : (encU32 (UInt32.ofNat entries.length)
